@@ -1808,3 +1808,141 @@ pub fn seq_spurious(strategy: u8) {
     }
     world::observe(p.len() as u64);
 }
+
+// ------------------------------------------------------------------------------------------
+// Containers of Option<..>: the null pointer as a value (the most common A-B-A)
+
+type OptSw<S> = arc_swap::ArcSwapAny<Option<V>, S>;
+
+fn opt_label(v: &Option<V>) -> u64 {
+    v.as_ref().map(|x| x.peek_label()).unwrap_or(0)
+}
+
+fn opt_rec(start: crate::api::Begin, kind: world::Kind, cur: u64, new: u64, ret: u64) {
+    finish(start, 0, kind, cur, new, ret);
+}
+
+/// R{load, deref, drop; load_full} || W{store(None); store(Some b)} || C{compare_and_swap(None => Some c) or
+/// rcu(None => Some c)} on an `ArcSwapAny<Option<VArc>>`: None is stored, compared and restored.
+pub fn opt_h<S>(fill: bool, use_rcu: bool)
+where
+    S: Strat + arc_swap::strategy::Strategy<Option<V>> + arc_swap::strategy::CaS<Option<V>>,
+{
+    let c: Arc<OptSw<S>> = Arc::new(arc_swap::ArcSwapAny::with_strategy(Some(V::new(1)), S::default()));
+    world::world(|w| {
+        w.initial.insert(0, 1);
+    });
+    let fil = filler::<S>();
+    let r = {
+        let (c, fil) = (c.clone(), fil.clone());
+        rt::spawn(move || {
+            let h = prologue(&fil, fill);
+            rt::quiet(|| rt::barrier(3));
+            let b = begin("load", "C08", LOAD_CAP);
+            let g = c.load();
+            let l = opt_label(&g);
+            opt_rec(b, world::Kind::Load, 0, 0, l);
+            if let Some(v) = g.as_ref() {
+                use_value(v, l, "guard of an optional container");
+            }
+            rt::call_begin("drop(guard)", "C09", DROP_CAP);
+            drop(g);
+            rt::call_end();
+            let b = begin("load_full", "C08", LOAD_CAP);
+            let f = c.load_full();
+            let lf = opt_label(&f);
+            opt_rec(b, world::Kind::LoadFull, 0, 0, lf);
+            if let Some(v) = f.as_ref() {
+                use_value(v, lf, "load_full result of an optional container");
+            }
+            drop(f);
+            release(h);
+        })
+    };
+    let w = {
+        let (c, fil) = (c.clone(), fil.clone());
+        rt::spawn(move || {
+            rt::atomic_thread();
+            let h = prologue(&fil, false);
+            rt::quiet(|| rt::barrier(3));
+            let b = begin("swap", "C09", WRITE_CAP);
+            let x = c.swap(None);
+            opt_rec(b, world::Kind::Swap, 0, 0, opt_label(&x));
+            rt::call_boundary();
+            let b = begin("swap", "C09", WRITE_CAP);
+            let y = c.swap(Some(V::new(11)));
+            opt_rec(b, world::Kind::Swap, 0, 11, opt_label(&y));
+            rt::call_boundary();
+            let b = begin("swap", "C09", WRITE_CAP);
+            let z = c.swap(None);
+            opt_rec(b, world::Kind::Swap, 0, 0, opt_label(&z));
+            rt::call_boundary();
+            release(h);
+            vec![x, y, z]
+        })
+    };
+    let t = {
+        let (c, fil) = (c.clone(), fil.clone());
+        rt::spawn(move || {
+            let h = prologue(&fil, fill);
+            rt::quiet(|| rt::barrier(3));
+            let mut out = Vec::new();
+            if use_rcu {
+                let b = begin("rcu", "C09", WRITE_CAP);
+                let attempt = std::cell::Cell::new(0u64);
+                let newl = std::cell::Cell::new(0u64);
+                let old = c.rcu(|cur: &Option<V>| {
+                    let a = attempt.get();
+                    attempt.set(a + 1);
+                    let l = 100 * (a + 1) + opt_label(cur) % 100;
+                    newl.set(l);
+                    Some(V::new(l))
+                });
+                let lo = opt_label(&old);
+                opt_rec(b, world::Kind::Rcu, lo, newl.get(), lo);
+                out.push(old);
+            } else {
+                let none: Option<V> = None;
+                let b = begin("compare_and_swap", "C09", WRITE_CAP);
+                let g = c.compare_and_swap(&none, Some(V::new(21)));
+                let lg = opt_label(&g);
+                opt_rec(b, world::Kind::Cas, 0, 21, lg);
+                out.push(arc_swap::Guard::into_inner(g));
+            }
+            release(h);
+            out
+        })
+    };
+    rt::join_all();
+    r.join();
+    let mut kept = w.join().unwrap_or_default();
+    kept.extend(t.join().unwrap_or_default());
+    // epilogue for the optional container
+    let g = rt::quiet(|| c.load());
+    let fl = opt_label(&g);
+    let b = begin("load", "C08", LOAD_CAP);
+    opt_rec(b, world::Kind::Load, 0, 0, fl);
+    world::check_linearizable("C05,C06,C03");
+    let mut owners: HashMap<u64, usize> = HashMap::new();
+    if fl != 0 {
+        *owners.entry(fl).or_insert(0) += 2;
+    }
+    for v in kept.iter().flatten() {
+        *owners.entry(v.peek_label()).or_insert(0) += 1;
+    }
+    owners.insert(90, 1);
+    world::check_counts::<1>(&owners, "after all threads finished (optional container)");
+    rt::quiet(|| drop(g));
+    for v in kept.iter().flatten() {
+        let l = v.peek_label();
+        use_value(v, l, "kept handle of an optional container");
+    }
+    rt::quiet(|| {
+        drop(kept);
+        match Arc::try_unwrap(c) {
+            Ok(c) => drop(c),
+            Err(_) => panic!("harness bug"),
+        }
+        drop_container(fil);
+    });
+}
